@@ -29,6 +29,14 @@ CHECKS = [
      "text": "Coq theorems by induction over arbitrary operation lists (any number of groups/sockets) over an executable model of rtr_mgr.c: init/add/remove rejections, ascending order invariant, newly-ESTABLISHED only if every socket synced, closing of all less-preferred groups, no upward shutdown, failover to the first closed group. Tied to /repo on every run by line-by-line differential execution against the real rtr_mgr.c (rtr_start/rtr_stop link-time stubs checked side by side against the real functions); thorough tier exhaustive over all 1..3x1..2 configurations (state-merged BFS). The model carries the pinned-commit variant (two clauses refuted with replayed witnesses) and the repaired variant (/repo fixes e25b98f, 58f5da3), and the check selects the one the code matches.",
      "note": "Trusted: Coq kernel, hand-written MgrModel.v (tied by correspondence), link-time stubs, tommy list as Coq list, serialised callbacks (concurrent rtr_mgr_cb of two socket threads not covered). No axioms.",
      "technique": "Coq invariant proof over an executable model + exhaustive/sampled differential correspondence with the shipped C + independent per-clause trace oracle"},
+    {"id": "C11",
+     "text": "Coq theorems: the bytes hashed for every hop of a path of any length equal the RFC 8205 digest (spec written from the RFC by recursion on the segment lists), the encoding is injective on all signed fields, exact stream size under the C integer widths, validate = VALID iff for every hop some key with the segment's SKI AND AS verifies (C11_full_after_fix; the SKI-only variant of the pinned commit is kept and refuted), specific codes in priority order and never VALID. The check detects on every run which validator variant /repo matches.",
+     "note": "Partial: 'changing any signed bit makes the answer not VALID' is C11_inj plus two named crypto hypotheses (SHA-256 collision freedom, signature binds hash) - not facts about the code. Tied per run to the real library + OpenSSL: sizes, aligned bytes, per-iteration hashed bytes, return codes; independent signer = extracted spec + EVP; single-bit flips, wrong-AS keys, RFC 8208 vectors. Bounds: total digest < 65536 bytes, < 256 hops (C integer widths). Trusted: Coq kernel, OpenSSL, hand-written model. No axioms (crypto functions are Section variables).",
+     "technique": "Coq proof + extracted-model/real-library correspondence + independent-signer oracle"},
+    {"id": "C12",
+     "text": "Coq theorems: the SIGNING-mode byte stream equals the RFC 8205 signing digest, its size, the error codes in priority order, and the round trip: a path built hop by hop from generated signatures validates VALID (both validator variants). Library signatures are verified over the extracted spec's octets by OpenSSL EVP independently of the library, by the openssl CLI and strict DER parsing.",
+     "note": "Partial as C11: the matching sign/verify pair, key loading and signature length are hypotheses of the round-trip theorem (Section variables), OpenSSL is trusted. No axioms.",
+     "technique": "Coq proof + extracted-model/real-library correspondence + independent verifier oracle"},
     {"id": "C20",
      "text": "Coq theorems over the translator's output (both enums, both name tables, both function bodies, regenerated from /repo on every run): every enumerator maps to its name, every other 32-bit value to NULL, no table read out of range. The real functions are additionally run under ASan on every enumerator and on values outside.",
      "note": "Trusted: Coq kernel, tools/c2v.py + clang AST, 32-bit enum objects, LP64. No axioms.",
